@@ -1,7 +1,7 @@
 import TapkeeVerif.Model.Mat
 /-
 Small additions to `Model/Mat.lean` used by the C08–C10 models (core Lean only):
-vector caching, column extraction, triangle views, natural powers.
+column extraction, triangle views, natural powers.
 -/
 namespace TapkeeVerif
 
@@ -9,15 +9,6 @@ section
 variable {K : Type} {n m : Nat}
 
 namespace Vec
-/-- cache a function vector in an array (identity for proofs: `Vec.materialize_eq`) -/
-def materialize (v : Vec n K) : Vec n K :=
-  let arr : Array K := Array.ofFn v
-  fun i => if h : i.1 < arr.size then arr[i.1] else v i
-
-theorem materialize_eq (v : Vec n K) : materialize v = v := by
-  funext i
-  simp [materialize]
-
 def ones [One K] : Vec n K := fun _ => 1
 end Vec
 
